@@ -45,13 +45,13 @@ def check(tier, seed, replay=None):
         cases = [c]
     else:
         cases = []
-        for cfg, n, sim in [("SimNamed2.cfg", 700 if tier == "quick" else 8000, (40 if tier == "quick" else 600, 8)),
-                            ("SimNamed3.cfg", 200 if tier == "quick" else 4000, (2 if tier == "quick" else 30, 9))]:
+        for cfg, n, sim in [("SimNamed2.cfg", 700 if tier == "quick" else 40000, (40 if tier == "quick" else 3000, 8)),
+                            ("SimNamed3.cfg", 200 if tier == "quick" else 20000, (2 if tier == "quick" else 200, 9))]:
             cs, m = lpcases.family(cfg, "quick", seed, n, sim)
             meta[cfg[:-4]] = m
             cases += cs
         # one-variable named models and mixed named / unnamed rows
-        cs, m = lpcases.family("Cont1.cfg", "quick", seed, 300 if tier == "quick" else 4000)
+        cs, m = lpcases.family("Cont1.cfg", "quick", seed, 300 if tier == "quick" else 50000)
         meta["Cont1(named)"] = m
         for c in cs:
             c = copy.deepcopy(c)
